@@ -385,6 +385,24 @@ func (o *Oracle) reqs(idx int, op Op, res string, pre, post *Dump) {
 		}
 		by[a] = append(by[a], ReqStr(op.Reqs[i].PB()))
 	}
+	// ... and every request of the batch is now pending for its addressee, in order: nothing is dropped on the way in
+	for _, a := range order {
+		got := []string{}
+		for _, r := range post.Requests[a] {
+			got = append(got, ReqStr(r))
+		}
+		o.Run.Count("c10:stored_batch_checked")
+		if fmt.Sprint(got) != fmt.Sprint(by[a]) {
+			why := fmt.Sprintf("the batch carried %d request(s) for %s, %d are pending for it after the update: %v vs %v", len(by[a]), a, len(got), by[a], got)
+			o.fail("C10", "batch_stored", "batch-not-stored", why, idx)
+			for i := range op.Reqs {
+				if op.Reqs[i].Addr == a && op.Reqs[i].T == "kill" {
+					o.fail("C11", "kill_delivered", "kill-request-dropped", why, idx)
+					break
+				}
+			}
+		}
+	}
 	for _, a := range order {
 		if _, had := o.pending[a]; had {
 			o.Run.Count("c10:superseded")
@@ -442,6 +460,18 @@ func (o *Oracle) report(idx int, op Op, res string, pre, post *Dump) {
 		o.Run.Count("c12:host_log_record_checked")
 		if !same {
 			o.fail("C12", "restore_needs_log", "host-log-record", fmt.Sprintf("after the report of %s Drummer's record of its persisted logs is %v, the host's last list was %v", a, got, o.hostLog[a]), idx)
+		}
+	}
+	// C05 "a NodeHost is live iff its last report is within the timeout": the record of the NodeHost that just reported
+	// carries the current time, whatever else the report said (lost logs, new region, ...)
+	if h := post.NodeHostImage.Nodehosts[a]; h == nil {
+		o.fail("C05", "host_stamped", "reporting-host-not-recorded", fmt.Sprintf("%s just reported; Drummer has no record of it", a), idx)
+	} else {
+		o.Run.Count("c05:host_stamp_checked")
+		if h.Tick != pre.Tick {
+			why := fmt.Sprintf("%s just reported at time %d; Drummer's record of it says it last reported at %d: placement and restore will treat it as dead", a, pre.Tick, h.Tick)
+			o.fail("C05", "host_stamped", "reporting-host-not-stamped", why, idx)
+			o.fail("C01", "host_stamped", "reporting-host-not-stamped", why, idx)
 		}
 	}
 	// C08 / C02 "a NodeHost that does not already host the shard": the shards Drummer records for a host include every
